@@ -7,7 +7,6 @@ NA = {
  "C03": "oracle is the observable behaviour of whole programs run by bash and by interp (process execution); neither can be a term in a solver query. Its decidable core (structure preservation) is decided under C01.",
  "C12": "oracle is `bash -n` / `dash -n`, an external process; a reference grammar faithful enough to replace it would be a second parser; feeding witnesses to the shells is test generation, not a solver verdict.",
  "C15": "typedjson is reflect.StructOf + encoding/json; reflection over run-time constructed types and the JSON codec are outside what the hand-written go/ssa symbolic executor encodes.",
- "C26": "whole-interpreter equivalence with bash over generated programs: external oracle, process and file-system effects, goroutine pipelines. Its kernels are decided under C20-C24, C27, C28, C33.",
  "C32": "data-race freedom under every goroutine interleaving needs a model of Go's scheduler and memory model; the engine is sequential.",
 }
 PENDING = "not yet encoded in this round: the engine does not yet execute the code this property depends on (see DESIGN.md section 8); no check is claimed"
